@@ -3,6 +3,7 @@ from .. import gen, model, rt
 from ..core import Acc, Violation, run_hypothesis, shard_seed
 
 PROPERTY = 'C01'
+FO_RULE = ' Date-times whose tzinfo is a bare UTC offset (every quarter hour from -14:00 to +14:00 and odd offsets, at six instants): the writer may refuse them, but what it writes must denote the same instant at the same offset.'
 SIZES_RULE = ' Size sweep: one dimension of the document at a time (rows, columns, grid/column metadata tags, list items, dict tags, string/URI/Ref-display/XStr length, grids per document, rows of a nested grid, distinct string cells, distinct numbers/dates/times, digits, nested lists/dicts) is pushed over every power-of-two and power-of-ten boundary up to the limits in gen.SIZE_LIMIT and judged by the same oracle.'
 FMT = 'zinc'
 RULE = ('model grids over the Haystack value domain of DESIGN.md 1.4 (every kind in grid meta / column meta / cells / list '
@@ -11,7 +12,7 @@ RULE = ('model grids over the Haystack value domain of DESIGN.md 1.4 (every kind
         '(boundary payloads per kind, every zone, every kind in every position) and the scalar path '
         'parse_scalar(dump_scalar(v)). Oracle: kind-strict model comparison of the parsed result with the input '
         '(own comparator, not Grid.__eq__). Non-trivial = at least one non-null value somewhere in the grid / a '
-        'non-null scalar; distinct by canonical hash of the model.' + SIZES_RULE)
+        'non-null scalar; distinct by canonical hash of the model.' + SIZES_RULE + ' After a refused dump (a cell of no Haystack kind, a zone-less date-time, NA in a 2.0 grid - in the grid itself, in a grid nested in it, or in the grid that encloses it) and repair of that cell, the same Grid object must round-trip alone, twice in one document and nested.' + FO_RULE)
 ASSUMPTIONS = ['value domain restrictions of DESIGN.md 1.4 (tag-name syntax, unit alphabet not starting with "_", '
                'Quantity values finite, years 2..9998 for date-times, xstr type name other than "Bin")',
                'a missing row key and a None cell are the same cell']
@@ -25,6 +26,8 @@ def plan(tier, seed, excl):
     t += [('catalogue-grids', {'shard': i, 'of': 4}) for i in range(4)]
     t += [('scalars', {'shard': i, 'n': 4000 if q else 60000}) for i in range(10)]
     t += [('sizes', {'shard': i, 'of': 16, 'tier': tier}) for i in range(16)]
+    t.append(('after-failed-dump', {}))
+    t.append(('fixed-offset', {}))
     t += [('grids', {'shard': i, 'n': 700 if q else 8000}) for i in range(16)]
     return t
 
@@ -57,6 +60,23 @@ def run(part, args, env, fmt=FMT):
             except Violation as v:
                 acc.violation(v)
         acc.exhaustive['every kind sample x every position x versions'] = True
+    elif part == 'after-failed-dump':
+        n = 0
+        for i, m in enumerate(gen.catalogue_grids(excl)):
+            if i % 7:
+                continue
+            for j, poison in enumerate(rt.POISONS):
+                where = ('cell', 'nested', 'outer')[(i // 7 + j) % 3]
+                case = {'kind': 'after-failed', 'grid': m, 'poison': poison, 'where': where}
+                n += 1
+                try:
+                    rt.check_after_failed(case, fmt)
+                except Violation as v:
+                    acc.violation(v)
+        acc.bulk(n, n, labels=('after-failed-dump',))
+        acc.sample({'kind': 'after-failed', 'grids': n})
+    elif part == 'fixed-offset':
+        rt.fixed_offset_part(acc, fmt, 'own')
     elif part == 'sizes':
         sizes_part(acc, args, lambda case: rt.check_doc(case, fmt), {'form': 'text'})
     elif part == 'scalars':
@@ -110,6 +130,10 @@ def forms_for(fmt):
 
 
 def replay(stage, case, fmt=FMT):
+    if case['kind'] == 'fixed-offset':
+        return rt.check_fixed_offset(case, fmt, 'own')
+    if case['kind'] == 'after-failed':
+        return rt.check_after_failed(case, fmt)
     if case['kind'] == 'scalar':
         rt.check_scalar(case, fmt)
     else:
